@@ -4,6 +4,8 @@ import PV.Proofs.Subterm
 import PV.Proofs.UnionPy
 import PV.Proofs.PyEqEquiv
 import PV.Proofs.NodeCount
+import PV.Proofs.AnalysisTable
+import PV.Generated.Analysis
 /-
   C09 — analyses: free variables / coincidence, `DependencyMapper` (`deps`), flop counters.
 -/
@@ -1526,5 +1528,309 @@ theorem numNodes_old_eq (e : Expr) (hU : unconfusable e = true) : numNodes e = c
 example : numNodes (.nary .sum [.var "x", .bin .pow (.var "x") (.const (.int 2)),
     .const (.int 2), .const (.flt "2.0" 2 1)]) = .ok 5 := by
   rw [numNodes_old_eq _ (by decide)]; decide
+
+/-! ## The handlers of the CURRENT source (T-gen)
+
+`Generated.c09DepLayers`, `c09FlopLayers`, `c09FlopCseLayers`, `c09CountSpec`, `c09DepInit`, … are
+regenerated by extract/analysis.py from the live source of pymbolic/mapper/dependency.py,
+flop_counter.py, analysis.py (and, through extract/traversal.py, `c04CombineTable`,
+`c04WalkTable`, `c04Classes` from pymbolic/mapper/__init__.py and primitives.py) on every check.
+The theorems below tie the hand-written models `deps`, `flopsG`, `c09CountWalk` to those tables for
+ALL expressions, flag settings, seen-sets and caches: an edit of the source that drops a variable
+under one flag, tests the flags in another order, recurses into other children, counts `n`
+instead of `n - 1` additions, forgets the seen-set update, looks the cache up after dispatching or
+counts in another hook changes a table and breaks them. -/
+
+section TGen
+open Generated
+
+/-- **Dependency handler bodies.**  For every node the closed body the current source runs —
+`Mapper.__call__` dispatch through the class MRO against the handler names of `DependencyMapper`'s
+MRO, `super()` / `Collector.…(self, …)` / `Mapper` stubs / the CSE memo wrapper followed through
+the layers, the layers of `CombineMapper` and `Mapper` being the rows of the C04 combine table — is
+exactly the body `deps` was written from: same flag tests in the same order, same returned sets,
+same recursion sites. -/
+theorem deps_resolve_current (e : Expr) :
+    c09Resolve c04Classes c09DepLayers e = c09DepBody e := by
+  cases e with
+  | const k => cases k <;> rfl
+  | nary o cs => cases o <;> rfl
+  | bin o a b => cases o <;> rfl
+  | un o a => cases o <;> rfl
+  | _ => rfl
+
+example : c09Resolve c04Classes c09DepLayers (.lookup (.var "r") "u") =
+    .ok (.ifFlag "include_lookups" .single (.c04 (.fold false [⟨"aggregate", .one, true⟩]))) := rfl
+
+/-- **`deps` is the table-driven dependency analysis of the current source**: on every node and
+under every flag setting, one handler call as the regenerated tables describe it (`c09DepsStep`),
+recursing through `deps`. -/
+theorem deps_table_step_current (fl : DepFlags) (e : Expr) :
+    deps fl e = c09DepsStep c04Classes c09DepLayers fl (deps fl) e := by
+  rw [c09DepsStep, deps_resolve_current]; exact deps_eq_stepB fl e
+
+example : c09DepsStep c04Classes c09DepLayers { lookups := false } (deps { lookups := false })
+    (.lookup (.var "r") "u") = .ok [.var "r"] := by decide
+
+/-- … and the only such function: anything that makes one table-driven handler call per node and
+recurses through itself IS `deps` (so `deps_exact`, `deps_off_eq_fv`, `deps_complete`,
+`deps_sound_occurs`, … are theorems about what the current source says). -/
+theorem deps_unique_current (fl : DepFlags) (f : Expr → Except DepErr (List Expr))
+    (hf : ∀ e, f e = c09DepsStep c04Classes c09DepLayers fl f e) : ∀ e, f e = deps fl e :=
+  c09Deps_unique (fun e => c09Resolve c04Classes c09DepLayers e) fl f (deps fl) hf
+    (deps_table_step_current fl)
+
+/-- the hypothesis of `deps_unique_current` is satisfiable (by `deps` itself) -/
+example (fl : DepFlags) : ∀ e, deps fl e = deps fl e :=
+  deps_unique_current fl (deps fl) (deps_table_step_current fl)
+
+/-- `deps_exact` read on the current source: ANY function satisfying the handler equations of the
+regenerated `DependencyMapper` tables reports, on a well-formed expression, exactly the occurrences
+the flags select (modulo Python `==`). -/
+theorem deps_exact_current {fl : DepFlags} (f : Expr → Except DepErr (List Expr))
+    (hf : ∀ e, f e = c09DepsStep c04Classes c09DepLayers fl f e)
+    {e : Expr} {r : List Expr} (hwf : e.wf = true) (h : f e = .ok r) :
+    (∀ y ∈ r, Occurs fl e y) ∧ (∀ x, Occurs fl e x → ∃ y ∈ r, y.pyEq x = true) :=
+  deps_exact hwf (deps_unique_current fl f hf e ▸ h)
+
+example : (deps {} demoE).isOk = true := by decide
+
+/-- well-formed expressions form a class on which Python `==` is an equivalence -/
+theorem wf_eqClass : C09EqClass (fun e : Expr => e.wf = true) where
+  refl := pyEq_refl
+  symm := pyEq_symm
+  trans := pyEq_trans
+
+/-- every set `DependencyMapper` returns is duplicate-free under `==`, as a Python set is -/
+theorem deps_result_distinct (fl : DepFlags) (e : Expr) (r : List Expr) (h : deps fl e = .ok r) :
+    c09Distinct r := deps_distinct fl e h
+
+/-- **`combine` read literally.**  For a well-formed node `e` and any handler shape `recs` that
+fits it, the set the table-driven step computes from the recursion sites (`c09UnionSites`, the
+association `deps` uses) is — as a list, element for element — Python's
+`reduce(operator.or_, values, set())` (`combine_current`) applied to the list of the results of
+ALL recursive calls in source order. -/
+theorem deps_combine_literal {fl : DepFlags} {e : Expr} (hwf : e.wf = true) (recs : List C04Rec)
+    (cs : List Expr) (hfit : c04RecsChildren e recs = some cs) :
+    c09UnionSites (deps fl) e recs = (c09MapM (deps fl) cs).map c09ReduceOr := by
+  refine c09UnionSites_eq_literal wf_eqClass (deps fl) e recs cs hfit ?_
+  intro c hc r hr
+  have hcw : c.wf = true := by
+    unfold c04RecsChildren at hfit
+    rcases hcss : c04OptSeq (recs.map (c04RecChildren e)) with _ | css
+    · simp [hcss] at hfit
+    · simp only [hcss, Option.map_some, Option.some.injEq] at hfit
+      subst hfit
+      obtain ⟨l, hl, hcl⟩ := List.mem_flatten.mp hc
+      have : ∀ (recs : List C04Rec) (css : List (List Expr)),
+          c04OptSeq (recs.map (c04RecChildren e)) = some css → ∀ l ∈ css, ∀ c ∈ l, c ∈ e.children := by
+        intro recs
+        induction recs with
+        | nil => intro css h; simp [c04OptSeq] at h; subst h; simp
+        | cons r rs ih =>
+          intro css h l hl c hc
+          rcases hr : c04RecChildren e r with _ | l0
+          · simp [hr, c04OptSeq] at h
+          · rcases hrs : c04OptSeq (rs.map (c04RecChildren e)) with _ | ls
+            · simp [hr, hrs, c04OptSeq] at h
+            · simp only [List.map_cons, hr, hrs, c04OptSeq, Option.some.injEq] at h
+              subst h
+              rcases List.mem_cons.mp hl with rfl | hl
+              · exact c04RecChildren_sub hr c hc
+              · exact ih ls hrs l hl c hc
+      exact wf_children hwf (this recs css hcss l hl c hcl)
+  exact ⟨deps_distinct fl c hr, eqUniverse_wf.deps_mem hcw hr⟩
+
+example : c09ReduceOr [[.var "x"], [.var "y", .var "x"], [.const (.int 1)]] =
+    [.var "x", .var "y", .const (.int 1)] := by decide
+
+/-- **Flop handler bodies** of the current source, for both counters (`aware`:
+`CSEAwareFlopCounter`, else `FlopCounter` = `CachedMapper` over `FlopCounterBase`): which handlers
+add how many operations (as expressions in `len(expr.children)`), which children are recursed in
+which order, the seen-set test and update, and the handlers inherited from `CombineMapper` (rows
+of the C04 combine table, `combine = sum`). -/
+theorem flops_resolve_current (aware : Bool) (e : Expr) :
+    c09Resolve c04Classes (if aware then c09FlopCseLayers else c09FlopLayers) e =
+      c09FlopBody aware e := by
+  cases aware <;> cases e with
+  | const k => cases k <;> rfl
+  | nary o cs => cases o <;> rfl
+  | bin o a b => cases o <;> rfl
+  | un o a => cases o <;> rfl
+  | _ => rfl
+
+/-- **`flopsG` is the table-driven flop counter of the current source** (both variants, every
+seen-set), counts read as Python integers. -/
+theorem flops_table_step_current (aware : Bool) (e : Expr) (seen : List Expr) :
+    c09Lift (flopsG aware e seen) =
+      c09FlopsStep c04Classes (if aware then c09FlopCseLayers else c09FlopLayers)
+        (fun c s => c09Lift (flopsG aware c s)) e seen := by
+  rw [c09FlopsStep, flops_resolve_current]; exact flopsG_eq_stepB aware e seen
+
+example : c09FlopsStep c04Classes c09FlopLayers (fun c s => c09Lift (flopsG false c s))
+    (.nary .sum [.var "x", .var "y", .var "z"]) [] = .ok (2, []) := by decide
+
+/-- … and the only one (so `flops_eq_count`, `flopsCse_once`, `flopsCse_first`, `flopsCse_le`
+speak about the current source). -/
+theorem flops_unique_current (aware : Bool)
+    (f : Expr → List Expr → Except DepErr (Int × List Expr))
+    (hf : ∀ e s, f e s =
+      c09FlopsStep c04Classes (if aware then c09FlopCseLayers else c09FlopLayers) f e s) :
+    ∀ e s, f e s = c09Lift (flopsG aware e s) :=
+  c09Flops_unique
+    (fun e => c09Resolve c04Classes (if aware then c09FlopCseLayers else c09FlopLayers) e)
+    f (fun c s => c09Lift (flopsG aware c s)) hf (flops_table_step_current aware)
+
+example (aware : Bool) : ∀ e s, c09Lift (flopsG aware e s) = c09Lift (flopsG aware e s) :=
+  flops_unique_current aware (fun e s => c09Lift (flopsG aware e s)) (flops_table_step_current aware)
+
+example : c09FlopsStep c04Classes c09FlopCseLayers (fun c s => c09Lift (flopsG true c s))
+    (.cse (.nary .prod [.var "x", .var "y"]) none "s") [] =
+    .ok (1, [.cse (.nary .prod [.var "x", .var "y"]) none "s"]) := by decide
+
+/-- `flops_eq_count` read on the current source: any solution of the handler equations of the
+regenerated `FlopCounter` tables returns the independent operation count and leaves the seen-set
+alone. -/
+theorem flops_eq_count_current (f : Expr → List Expr → Except DepErr (Int × List Expr))
+    (hf : ∀ e s, f e s = c09FlopsStep c04Classes c09FlopLayers f e s)
+    (e : Expr) (seen : List Expr) (n : Int) (seen' : List Expr) (h : f e seen = .ok (n, seen')) :
+    n = (countOps e : Int) ∧ seen' = seen := by
+  have h' := flops_unique_current false f hf e seen
+  rw [h] at h'
+  rcases hg : flopsG false e seen with err | ⟨m, s'⟩
+  · rw [hg] at h'; cases h'
+  · rw [hg, c09Lift_ok] at h'
+    obtain ⟨rfl, rfl⟩ := flops_eq_count e seen m s' hg
+    cases h'; exact ⟨rfl, rfl⟩
+
+/-- `flopsCse_once` read on the current source. -/
+theorem flopsCse_once_current (f : Expr → List Expr → Except DepErr (Int × List Expr))
+    (hf : ∀ e s, f e s = c09FlopsStep c04Classes c09FlopCseLayers f e s)
+    (c : Expr) (p : Option String) (s : String) (seen : List Expr)
+    (hl : c.hasList = false) (h : seen.any (fun k => k.pyEq (.cse c p s)) = true) :
+    f (.cse c p s) seen = .ok (0, seen) := by
+  rw [flops_unique_current true f hf, flopsCse_once c p s seen hl h]; rfl
+
+/-- every seen-set operation of the current `CSEAwareFlopCounter` handlers is on the attribute
+`__init__` initialises with `set()` (a fresh counter starts with an empty seen-set) -/
+theorem flop_seen_attr_current :
+    (c09FlopCseLayers.flatMap (fun l => l.rows.flatMap (fun r => r.body.seenAttrs))).all
+      (· == c09FlopSeenAttr) = true ∧
+    (c09FlopLayers.flatMap (fun l => l.rows.flatMap (fun r => r.body.seenAttrs))) = [] := by
+  decide
+
+/-- **`combine`** as the current source resolves it: `Collector.combine` =
+`reduce(operator.or_, values, set())` for the dependency mapper, `FlopCounterBase.combine` =
+`sum(values)` for all three flop counters. -/
+theorem combine_current :
+    c09DepCombine = ("Collector", .reduceOr) ∧ c09FlopCombine = ("FlopCounterBase", .sum) ∧
+    c09FlopCseCombine = ("FlopCounterBase", .sum) ∧
+    c09FlopCachedCombine = ("FlopCounterBase", .sum) := by decide
+
+/-- **Which `__call__` recurses.**  `DependencyMapper` and `CSEAwareFlopCounter` recurse through
+`Mapper.__call__`; `CachedDependencyMapper`, `FlopCounter` and `NodeCountMapper` through
+`CachedMapper.__call__` (memoised; the cached dependency mapper has `DependencyMapper`'s
+handlers). -/
+theorem rec_owners_current :
+    c09RecOwners = [("DependencyMapper", "Mapper"), ("CachedDependencyMapper", "CachedMapper"),
+      ("FlopCounter", "CachedMapper"), ("CSEAwareFlopCounter", "Mapper"),
+      ("NodeCountMapper", "CachedMapper")] ∧
+    c09CachedDepMro = ["CachedDependencyMapper", "CachedMapper"] ++ c09DepLayers.map (·.cls) := by
+  decide
+
+/-- **`DependencyMapper.__init__`** of the current source: `composite_leaves=b` is equivalent to
+setting `include_subscripts`, `include_lookups`, `include_calls` to `b` (and leaves `include_cses`
+alone); without it the four flags are stored as given; the defaults are the model's defaults. -/
+theorem dep_init_current (given : DepFlags) :
+    c09InitFlags c09DepInit given none = given ∧
+    c09InitFlags c09DepInit given (some true) =
+      { given with subscripts := true, lookups := true, calls := .yes } ∧
+    c09InitFlags c09DepInit given (some false) =
+      { given with subscripts := false, lookups := false, calls := .no } ∧
+    c09DepInit.params = [("include_subscripts", "True"), ("include_lookups", "True"),
+      ("include_calls", "True"), ("include_cses", "False"), ("composite_leaves", "None")] ∧
+    c09DepInit.callsDomain = ["True", "False", "'descend_args'"] := by
+  refine ⟨?_, ?_, ?_, by decide, by decide⟩ <;> cases given <;> rfl
+
+example : ({} : DepFlags) = { subscripts := true, lookups := true, calls := .yes, cses := false } :=
+  rfl
+
+/-- every recursive call in a handler defined by `DependencyMapper` / `Collector` hands the extra
+arguments on -/
+def c09BodyFwd : C09Body → Bool
+  | .combine recs => recs.all (·.fwd)
+  | .ifFlagEq _ _ t e => c09BodyFwd t && c09BodyFwd e
+  | .ifFlag _ t e => c09BodyFwd t && c09BodyFwd e
+  | _ => true
+
+theorem dep_rows_forward_current :
+    (c09DepLayers.all fun l => l.rows.all fun r => c09BodyFwd r.body) = true := by decide
+
+/-- **`WalkMapper` handler shapes** of the current source (as `C04.walk_resolve_current`; restated
+here because `NodeCountMapper` runs these handlers — extract/analysis.py checks that every
+`map_*` of `NodeCountMapper` IS `WalkMapper`'s function). -/
+theorem nodecount_handlers_current (e : Expr) :
+    c04Resolve c04Classes c04WalkTable e = c04WalkBody e := by
+  cases e with
+  | const k => cases k <;> rfl
+  | nary o cs => cases o <;> rfl
+  | bin o a b => cases o <;> rfl
+  | un o a => cases o <;> rfl
+  | _ => rfl
+
+/-- **`NodeCountMapper`, `CachedMapper.__call__`, `get_num_nodes`** of the current source: the MRO,
+the memo protocol (lookup before dispatch under `(type(expr), expr)`, store after the handler, on
+both paths), `visit` inherited from `WalkMapper` (returns `True`, counts nothing), `post_visit`
+counting one, a fresh mapper per `get_num_nodes` call starting at zero. -/
+theorem count_spec_current : c09CountSpec = c09CountSpecHand := by decide
+
+/-- **`c09CountWalk` is the table-driven node counter of the current source**: for every node and
+cache, one `NodeCountMapper.rec` call as the regenerated tables describe it (`c09CountStep`),
+recursing through `c09CountWalk`. -/
+theorem nodecount_table_step_current (e : Expr) (cache : List Expr) :
+    c09CountWalk e cache =
+      c09CountStep c04Classes c04WalkTable c09CountSpec c09CountWalk e cache := by
+  rw [c09CountStep, nodecount_handlers_current, count_spec_current]
+  exact c09CountWalk_eq_stepB _ e cache
+
+example : c09CountStep c04Classes c04WalkTable c09CountSpec c09CountWalk
+    (.nary .sum [.var "x", .var "x"]) [] = .ok (2, [.var "x", .nary .sum [.var "x", .var "x"]]) := by
+  decide
+
+/-- … and the only one (so `numNodes_eq_distinct`, `numNodes_between`, `numNodes_error`, … speak
+about the current source). -/
+theorem nodecount_unique_current (f : Expr → List Expr → Except DepErr (Nat × List Expr))
+    (hf : ∀ e c, f e c = c09CountStep c04Classes c04WalkTable c09CountSpec f e c) :
+    ∀ e c, f e c = c09CountWalk e c :=
+  c09Count_unique c09CountSpec
+    (fun e => c09StoredByMethod c04Classes (c04WalkTable.map (fun (h : C04Handler) => h.name)) e)
+    (fun e => c04Resolve c04Classes c04WalkTable e) f c09CountWalk hf nodecount_table_step_current
+
+example : ∀ e c, c09CountWalk e c = c09CountWalk e c :=
+  nodecount_unique_current c09CountWalk nodecount_table_step_current
+
+/-- `get_num_nodes` as modelled is the entry point of the current source (hash the first key, a
+fresh mapper, the counter returned) run with the table-driven `rec`. -/
+theorem numNodes_entry_current (e : Expr) :
+    c09NumNodesKeys e = c09NumNodesT c09CountSpec c09CountWalk e := by
+  rw [count_spec_current]; exact c09NumNodesKeys_eq_T e
+
+/-- `numNodes_eq_distinct` read on the current source: for ANY `rec` satisfying the equations of
+the regenerated tables, `get_num_nodes` returns the number of distinct subexpressions of an
+unconfusable, hashable tree without rejected constants. -/
+theorem numNodes_eq_distinct_current
+    (f : Expr → List Expr → Except DepErr (Nat × List Expr))
+    (hf : ∀ e c, f e c = c09CountStep c04Classes c04WalkTable c09CountSpec f e c)
+    (e : Expr) (hU : unconfusable e = true) (hL : e.hasList = false) (hOK : walkOK [] e = true) :
+    ∃ keys, c09NumNodesT c09CountSpec f e = .ok (numDistinct e, keys) := by
+  have hfe : f = c09CountWalk := funext fun e => funext fun c => nodecount_unique_current f hf e c
+  have h := numNodes_eq_distinct e hU hL hOK
+  rw [hfe, ← numNodes_entry_current]
+  simp only [c09NumNodes] at h
+  rcases hk : c09NumNodesKeys e with err | ⟨n, keys⟩
+  · rw [hk] at h; cases h
+  · rw [hk] at h; cases h; exact ⟨keys, rfl⟩
+
+end TGen
 
 end PV.C09
